@@ -257,13 +257,14 @@ pub fn is_valid_identifier(name: &str) -> bool {
 
 fn name_needs_quoting(name: &str) -> bool {
     let chars = name.chars();
-    // it contains any of these characters: ()'$,;-+{} or space
+    // The lexer reads an unquoted name as an identifier: a letter or '_' followed by
+    // letters, digits, '_' or '.'. Anything else, ()'$,;-+{} or space for instance, needs quotes
     for (i, char) in chars.enumerate() {
-        if [' ', '(', ')', '\'', '$', ',', ';', '-', '+', '{', '}'].contains(&char) {
+        if !(char.is_alphanumeric() || char == '_' || char == '.') {
             return true;
         }
-        // if it starts with a number
-        if i == 0 && char.is_ascii_digit() {
+        // if it starts with a number (or anything else an identifier cannot start with)
+        if i == 0 && !(char.is_alphabetic() || char == '_') {
             return true;
         }
     }
